@@ -64,6 +64,29 @@ def live_pydbml_objects():
     return n
 
 
+def reachable_mutables(root):
+    """ids of every mutable object reachable from a result: pydbml instances, dicts, lists, sets"""
+    seen = {}
+    stack = [root]
+    while stack:
+        o = stack.pop()
+        if id(o) in seen or isinstance(o, (str, bytes, int, float, bool, type(None), type)):
+            continue
+        mod = getattr(type(o), '__module__', '') or ''
+        if isinstance(o, (list, tuple, set, frozenset)):
+            if not isinstance(o, (tuple, frozenset)):
+                seen[id(o)] = o
+            stack.extend(o)
+        elif isinstance(o, dict):
+            seen[id(o)] = o
+            stack.extend(o.keys())
+            stack.extend(o.values())
+        elif mod.startswith('pydbml.'):
+            seen[id(o)] = o
+            stack.extend(vars(o).values() if hasattr(o, '__dict__') else [])
+    return seen
+
+
 def docs_pool(seed, n):
     docs = [(t, False) for _, t in GT.corpus() if len(t) < 3000]
     for k in range(n):
@@ -142,6 +165,10 @@ def main(tier, seed):
         a = PyDBML(t, allow_properties=p)
         b = PyDBML(t, allow_properties=p)
         before = O.dump_db(b)
+        shared = set(reachable_mutables(a)) & set(reachable_mutables(b))
+        if shared:
+            kinds = sorted({type(reachable_mutables(a)[i]).__name__ for i in shared})
+            ctx.fail(f'two parse results share mutable objects ({", ".join(kinds)})', {'op': 'shared-objects', 'text': t, 'props': p})
         # edit and extend `a`
         if a.project is not None:
             a.project.items['injected'] = 'x'
@@ -153,6 +180,12 @@ def main(tier, seed):
             for c in tb.columns:
                 c.properties['injected'] = 'z'
                 c.note.text = 'changed'
+                if hasattr(c.default, 'text'):
+                    c.default.text = 'changed()'
+            for ix in tb.indexes:
+                for sbj in ix.subjects:
+                    if hasattr(sbj, 'text'):
+                        sbj.text = 'changed()'
         for e in a.enums:
             e.add_item('injected_item')
         for g in a.table_groups:
@@ -175,6 +208,8 @@ def main(tier, seed):
             db = PyDBML(t, allow_properties=p)
             refs.append(weakref.ref(db))
             refs += [weakref.ref(x) for x in db.tables[:2]]
+            refs += [weakref.ref(c.default) for tb in db.tables for c in tb.columns if hasattr(c.default, 'text')][:3]
+            refs += [weakref.ref(x) for x in db.refs[:1]] + [weakref.ref(x) for x in db.enums[:1]]
             del db
         except Exception:  # noqa: BLE001
             pass
